@@ -1,8 +1,83 @@
-(* C01 — a successful bump yields a valid, strictly greater version. (theorems are added as they are proved) *)
-From Coq Require Import List NArith ZArith.
-From BV Require Import Lib.PyStr Model.V2 Model.Pep440 Model.Cli.
+(* C01 — a successful bump yields a valid, strictly greater version. *)
+From Coq Require Import List Bool NArith ZArith Arith String Ascii.
+From BV Require Import Lib.PyStr Lib.Regex Lib.RegexParse Model.V2 Model.Pep440 Model.Cli Gen.Tables
+  Proofs.CliFacts Proofs.IncrFacts.
 Import ListNotations.
 
-Example C01_smoke : is_new_pattern [77;65;74;79;82]%N = true.
+Theorem C01_gate_ok_spec : forall today raw old new, is_valid_version_v2 today raw old new = GateOk ->
+  (exists v, parse_version_info today new raw = POk v) /\ ver_lt old new = true /\ version_key old <> version_key new.
+Proof. exact gate_ok_spec. Qed.
+Print Assumptions C01_gate_ok_spec.
+
+(* a parsed version matches the pattern in full *)
+Theorem C01_parse_ok_full_match : forall today s raw v, parse_version_info today s raw = POk v ->
+  exists r e, compile_pattern_re (normalize_pattern raw raw) = Some r /\ re_match r s = Some (e, []).
+Proof. exact parse_ok_full_match. Qed.
+Print Assumptions C01_parse_ok_full_match.
+
+Theorem C01_gate_rejects_equal_key : forall today raw old new,
+  version_key new = version_key old -> is_valid_version_v2 today raw old new <> GateOk.
+Proof. exact gate_rejects_equal_key. Qed.
+Print Assumptions C01_gate_rejects_equal_key.
+
+Theorem C01_gate_rejects_lower : forall today raw old new,
+  ver_lt new old = true -> is_valid_version_v2 today raw old new <> GateOk.
+Proof. exact gate_rejects_lower. Qed.
+Print Assumptions C01_gate_rejects_lower.
+
+Theorem C01_test_exit0_sound : forall today old raw fl date setv new pep,
+  test_cmd_v2 today old raw fl date setv = Exit0 new pep ->
+  is_valid_version_v2 today raw old new = GateOk
+  /\ (exists v, parse_version_info today new raw = POk v)
+  /\ ver_lt old new = true
+  /\ pep = to_pep440 new
+  /\ validate_release_tag (f_tag fl) = true
+  /\ validate_flags raw fl = true
+  /\ (match setv with Some s => new = s | None => exists d, incr today old raw fl d = INew new end).
+Proof. exact test_exit0_sound. Qed.
+Print Assumptions C01_test_exit0_sound.
+
+Theorem C01_test_set_version_same_rejected : forall today old raw fl date,
+  test_cmd_v2 today old raw fl date (Some old) = ExitErr.
+Proof. exact test_set_version_same_rejected. Qed.
+Print Assumptions C01_test_set_version_same_rejected.
+
+Theorem C01_test_pin_date_and_date_rejected : forall today old raw fl d setv,
+  f_pin_date fl = true -> test_cmd_v2 today old raw fl (Some d) setv = ExitErr.
+Proof. exact test_pin_date_and_date_rejected. Qed.
+Print Assumptions C01_test_pin_date_and_date_rejected.
+
+Theorem C01_test_invalid_tag_rejected : forall today old raw fl date setv t,
+  f_tag fl = Some t -> existsb (eqb_str t) VALID_RELEASE_TAG_VALUES = false ->
+  test_cmd_v2 today old raw fl date setv = ExitErr.
+Proof. exact test_invalid_tag_rejected. Qed.
+Print Assumptions C01_test_invalid_tag_rejected.
+
+Theorem C01_incr_changes_version : forall today old raw fl d s,
+  incr today old raw fl d = INew s -> s <> old /\ s <> [].
+Proof. exact incr_changes_version. Qed.
+Print Assumptions C01_incr_changes_version.
+
+(* ------------------------------------------------------------------ non-vacuity on concrete strings *)
+Fixpoint S' (s : string) : list N :=
+  match s with EmptyString => [] | String c t => N_of_ascii c :: S' t end.
+
+(* bumpver test 1.2.3 MAJOR.MINOR.PATCH --patch *)
+Example C01_ex_patch :
+  test_cmd_v2 740163%Z (S' "1.2.3") (S' "MAJOR.MINOR.PATCH") (mkflags false false true None false false false) None None
+  = Exit0 (S' "1.2.4") (S' "1.2.4").
 Proof. vm_compute. reflexivity. Qed.
-Print Assumptions C01_smoke.
+Print Assumptions C01_ex_patch.
+
+(* --set-version 1.2.3.0 : matches the pattern, differs as a string, but is PEP 440-equal to 1.2.3 -> refused *)
+Example C01_ex_equal_key_rejected :
+  let raw := S' "MAJOR.MINOR.PATCH[.INC0]" in
+  let fl := mkflags false false false None false false false in
+  is_valid 740163%Z (S' "1.2.3.0") raw = Some true
+  /\ eqb_key (version_key (S' "1.2.3.0")) (version_key (S' "1.2.3")) = true
+  /\ is_valid_version_v2 740163%Z raw (S' "1.2.3") (S' "1.2.3.0") = GateReject
+  /\ test_cmd_v2 740163%Z (S' "1.2.3") raw fl None (Some (S' "1.2.3.0")) = ExitErr
+  /\ test_cmd_v2 740163%Z (S' "1.2.3") raw fl None (Some (S' "1.2.2.5")) = ExitErr
+  /\ test_cmd_v2 740163%Z (S' "1.2.3") raw fl None None = Exit0 (S' "1.2.3.1") (S' "1.2.3.1").
+Proof. vm_compute. repeat split; reflexivity. Qed.
+Print Assumptions C01_ex_equal_key_rejected.
